@@ -66,6 +66,7 @@ def build_fact_file(ctx, vfile, theorems):
             saved["discharged"] += len(res["theorems"])
         else:
             saved["obligations"] += len(res["theorems"])
+            saved["facts_failed"] = True
         saved["checker_cmd"] = (saved.get("checker_cmd", "") + " ; " + res["checker_cmd"]).strip(" ;")
         ctx.proof = saved
     else:
